@@ -217,7 +217,7 @@ func digitRuns(b []byte) [][2]int {
 }
 
 func c06Run(c *fw.Ctx) {
-	alpha := []byte{'*', '$', '+', '-', ':', '0', '1', '2', '9', '\r', '\n', 'a'}
+	alpha := []byte{'*', '$', '+', '-', ':', '0', '1', '2', '9', '\r', '\n', 'a', ' '}
 	maxLen := 6
 	if c.Thorough() {
 		maxLen = 8
@@ -235,7 +235,7 @@ func c06Run(c *fw.Ctx) {
 			c06RunOne(c, b, 1)
 		}
 	})
-	c.Sample(map[string]string{"family": "all strings <= maxLen over {* $ + - : 0 1 2 9 CR LF a}", "example": "*2\\r\\n$1"})
+	c.Sample(map[string]string{"family": "all strings <= maxLen over {* $ + - : 0 1 2 9 CR LF a SP}", "example": "*2\\r\\n$1"})
 	// (a') every byte value as the type byte of a top-level value and of an array element
 	for v := 0; v < 256; v++ {
 		for _, in := range [][]byte{
@@ -502,7 +502,7 @@ func init() {
 	fw.Register(&fw.Prop{
 		ID:    "C06",
 		Level: "exploration",
-		Rule:  "(a) ALL byte strings of length <=6 (thorough <=8) over {* $ + - : 0 1 2 9 CR LF a}, each whole and 1-byte-at-a-time; every one of the 256 byte values as the type byte of a top-level value, of a command argument and of a nested element; arrays with a declared count of 2^k-1, 2^k, 2^k+1 (k=3..13) elements, complete, one element short, and nested; (b) around 18 valid base streams: every truncation, every single-byte deletion, every single-byte substitution from the alphabet and by every other byte value (quick: at the first 12 and last 4 positions of bases longer than 24 bytes), every digit run replaced by each of 15 boundary numbers (thorough: splices of two bases); (c) declared sizes > 2^20 parsed in a sacrificial subprocess with RLIMIT_AS=8GiB whose actual fate (return, panic, fatal out-of-memory, fatal stack overflow) is the verdict; (d) nesting: 100 .. 2*10^6 (thorough 8*10^6) repetitions of an array header (alone, or behind a first element) closed, cut off, or ended by an empty array, in the same kind of subprocess. Non-trivial = the string starts a length-prefixed frame (family a) or is a structured edit (b, c).",
+		Rule:  "(a) ALL byte strings of length <=6 (thorough <=8) over {* $ + - : 0 1 2 9 CR LF a SP}, each whole and 1-byte-at-a-time; every one of the 256 byte values as the type byte of a top-level value, of a command argument and of a nested element; arrays with a declared count of 2^k-1, 2^k, 2^k+1 (k=3..13) elements, complete, one element short, and nested; (b) around 18 valid base streams: every truncation, every single-byte deletion, every single-byte substitution from the alphabet and by every other byte value (quick: at the first 12 and last 4 positions of bases longer than 24 bytes), every digit run replaced by each of 15 boundary numbers (thorough: splices of two bases); (c) declared sizes > 2^20 parsed in a sacrificial subprocess with RLIMIT_AS=8GiB whose actual fate (return, panic, fatal out-of-memory, fatal stack overflow) is the verdict; (d) nesting: 100 .. 2*10^6 (thorough 8*10^6) repetitions of an array header (alone, or behind a first element) closed, cut off, or ended by an empty array, in the same kind of subprocess. Non-trivial = the string starts a length-prefixed frame (family a) or is a structured edit (b, c).",
 		Assumptions: []string{
 			"an address-space cap of 8 GiB stands for 'finite memory'; a fatal out-of-memory abort of the child counts as the process aborting",
 			"all byte strings up to 1 MiB and coverage-guided fuzzing are not claimed",
